@@ -251,6 +251,16 @@ struct cw_holder : holder
                 if (REF) r.push_back(see_ref(bound, self(), NORANGE));
                 else r.push_back(obs{"value", vt::valof(bound)});
             });
+        else if (form == "crget")
+            when<REF || CP>::run("crget on an owning move-only closure", [&](auto id) { r.push_back(SEE(std::move(xtl::as_const(id(w))).get(), self(), NORANGE)); });
+        else if (form == "rconv")
+            when<REF || CP>::run("copy of an owning move-only closure", [&](auto id) {
+                // the implicit conversion of a temporary copy of the wrapper, bound to a reference and read after the temporary is gone
+                using RT = std::conditional_t<REF, CT, const P&>;
+                RT bound = id(W(id(xtl::as_const(w))));     // (id(): keeps the expression type-dependent; the temporary dies with the declaration)
+                if (REF) r.push_back(see_ref(bound, self(), NORANGE));
+                else r.push_back(obs{"value", vt::valof(bound)});
+            });
         else if (form == "conv")
             when<REF || CP>::run("conversion of an owning move-only closure", [&](auto id) {
                 CT c = id(w);                                  // operator closure_type()
@@ -624,6 +634,15 @@ struct h2 : holder
             when<CAN_COPY>::run("rvalue accessor of an owning move-only closure", [&](auto id) {
                 r.push_back(SEE(Tr::c1(std::move(xtl::as_const(id(w)))), self(), NORANGE));
                 r.push_back(SEE(Tr::c2(std::move(xtl::as_const(id(w)))), self(), NORANGE));
+            });
+        else if (form == "rvbind")
+            when<CAN_COPY>::run("copy of an owning move-only closure", [&](auto id) {
+                // the rvalue accessors of temporary copies of the wrapper, bound to references; the temporaries are gone when
+                // b1 / b2 are read (a reference into one of them is a use after scope: the sanitizer ends the trace with a Crash)
+                auto&& b1 = Tr::c1(id(W(id(xtl::as_const(w)))));
+                auto&& b2 = Tr::c2(id(W(id(xtl::as_const(w)))));
+                if (R1) r.push_back(see_ref(b1, self(), NORANGE)); else r.push_back(obs{"value", vt::valof(b1)});
+                if (R2) r.push_back(see_ref(b2, self(), NORANGE)); else r.push_back(obs{"value", vt::valof(b2)});
             });
         else if (form == "free" || form == "cfree")
             when<Tr::free_fns>::run("free accessor functions", [&](auto id) {
